@@ -500,6 +500,12 @@ class MPBFixedContext(SizedContext):
             case _:
                 raise RuntimeError(f'unrechable {direction}')
 
+    def _saturated(self, s: bool) -> Float:
+        """The bound an overflowing value of sign `s` saturates to."""
+        # unlike `maxval(s=True)`, an unsigned format saturates a negative
+        # overflow to its lower bound (zero) rather than raising
+        return Float(x=self.neg_maxval if s else self.pos_maxval, ctx=self)
+
     def _round_at(self, x: RealFloat | Float, n: int | None, exact: bool) -> Float:
         """
         Like `self.round_at()` but only for `RealFloat` or `Float` instances.
@@ -563,9 +569,9 @@ class MPBFixedContext(SizedContext):
                         else:
                             result = Float(x=self.inf_value, ctx=self)
                     else:
-                        result = self.maxval(xr.s)
+                        result = self._saturated(xr.s)
                 case OverflowMode.SATURATE:
-                    result = self.maxval(s=xr.s)
+                    result = self._saturated(xr.s)
                 case OverflowMode.WRAP:
                     ord_abs = self._fmt._mp_fmt.to_ordinal(Float(x=xr)) - self._fmt._neg_maxval_ord
                     total_ord = self._fmt._pos_maxval_ord - self._fmt._neg_maxval_ord + 1
